@@ -47,14 +47,18 @@ Chs == {34, 39, 92, 10, 13, 9, 32, 0, 8, 31, 127, 35, 97, 233, 128512, 65279}
 Leaves ==
   {Sv(<<>>)} \cup {Sv(<<c>>) : c \in Chs} \cup {Sv(<<97, c, 98>>) : c \in {34, 39, 92, 10, 13}}
   \cup {Sv(<<a, b>>) : a, b \in Chs}      \* every pair of the byte classes the writers distinguish
+  \cup {Sv(<<c>>) : c \in 0..127} \cup {Sv(<<97, c, 34>>) : c \in 0..31}   \* and every ASCII byte on its own (the writers match per byte)
   \cup {Sv(<<39, 39, 39>>), Sv(<<34, 34, 34>>), Sv(<<10, 97>>), Sv(<<97, 10, 10, 39, 39>>), Sv(<<116, 114, 117, 101>>), Sv(<<49>>), Sv(<<13, 10>>), Sv(<<92, 117, 48, 48>>)}
   \cup {Iv(FALSE, <<0>>), Iv(TRUE, <<1>>), Iv(FALSE, <<9,2,2,3,3,7,2,0,3,6,8,5,4,7,7,5,8,0,7>>), Iv(TRUE, <<9,2,2,3,3,7,2,0,3,6,8,5,4,7,7,5,8,0,8>>)}
   \cup {Fv("zero", n, <<>>, 0) : n \in BOOLEAN} \cup {Fv("inf", n, <<>>, 0) : n \in BOOLEAN} \cup {Fv("nan", n, <<>>, 0) : n \in BOOLEAN}
   \cup {Fv("fin", FALSE, <<1, 5>>, 0), Fv("fin", TRUE, <<1>>, 22), Fv("fin", FALSE, <<5>>, 0 - 324), Fv("fin", FALSE, <<1,7,9,7,6,9,3,1,3,4,8,6,2,3,1,5,7>>, 308), Fv("fin", FALSE, <<1>>, 15), Fv("fin", FALSE, <<1>>, 16), Fv("fin", TRUE, <<1, 2, 3>>, 0 - 7)}
   \cup {[k |-> "b", v |-> b] : b \in BOOLEAN}
   \cup {Dv(<<1979, 5, 27>>, <<7, 32, 0, 0>>, [t |-> "Z", m |-> 0]), Dv(<<1979, 5, 27>>, <<0, 32, 0, 999999000>>, [t |-> "O", m |-> 0 - 420]),
-        Dv(<<1979, 5, 27>>, <<7, 32, 0, 0>>, [t |-> "N", m |-> 0]), Dv(<<1979, 5, 27>>, <<>>, [t |-> "N", m |-> 0]), Dv(<<>>, <<7, 32, 0, 500000000>>, [t |-> "N", m |-> 0])}
-KeyPool == {<<>>} \cup {<<c>> : c \in Chs} \cup {<<a, b>> : a, b \in {34, 39, 92, 10, 127, 97, 233, 32, 35}} \cup {<<97, 46, 98>>, <<97, 32, 98>>, <<49>>, <<49, 46, 53>>, <<116, 114, 117, 101>>, <<49, 57, 55, 57, 45, 48, 53, 45, 50, 55>>,
+        Dv(<<1979, 5, 27>>, <<7, 32, 0, 0>>, [t |-> "N", m |-> 0]), Dv(<<1979, 5, 27>>, <<>>, [t |-> "N", m |-> 0]), Dv(<<>>, <<7, 32, 0, 500000000>>, [t |-> "N", m |-> 0]),
+        \* all nine fraction digits significant, the smallest and the largest fraction
+        Dv(<<>>, <<23, 59, 59, 999999999>>, [t |-> "N", m |-> 0]), Dv(<<1979, 5, 27>>, <<7, 32, 0, 1>>, [t |-> "Z", m |-> 0]),
+        Dv(<<1979, 5, 27>>, <<7, 32, 0, 123456789>>, [t |-> "O", m |-> 330]), Dv(<<1979, 5, 27>>, <<7, 32, 0, 120000000>>, [t |-> "N", m |-> 0])}
+KeyPool == {<<>>} \cup {<<c>> : c \in Chs} \cup {<<c>> : c \in (0..127) \ {98, 99}} \cup {<<a, b>> : a, b \in {34, 39, 92, 10, 127, 97, 233, 32, 35}} \cup {<<97, 46, 98>>, <<97, 32, 98>>, <<49>>, <<49, 46, 53>>, <<116, 114, 117, 101>>, <<49, 57, 55, 57, 45, 48, 53, 45, 50, 55>>,
                                                   <<45>>, <<95>>, <<34, 39>>, <<39, 39, 39>>, <<105, 110, 102>>}
 
 RECURSIVE SubstLeaf(_, _), SubstSeq(_, _), SubstEntries(_, _)
